@@ -182,9 +182,9 @@ static int apply_dev(run_t *R, const devi_t *dv, int turn)
         {
             return 0;
         }
-        if (!R->w.s[dv->a].ssl)
+        if (!R->w.s[dv->a].ssl || world_is_complete(&R->w, dv->a))
         {
-            return 0;
+            return 0; /* a retransmission timer only runs while the side waits for a handshake flight */
         }
         world_dtls_timeout(&R->w, dv->a);
         return 1;
